@@ -419,6 +419,25 @@ def level_spec(h: Heap):
     return _LEVEL[key]
 
 
+_LEAFCNT: dict = {}
+
+
+def leaf_count(h: Heap):
+    """LeafCnt(s, i): number of elements among the first i of s that have no children:
+         LeafCnt(s,0) = 0    LeafCnt(s,i+1) = LeafCnt(s,i) + (1 if clen(s[i]) == 0 else 0)"""
+    key = (h.syms["_children"].name(), h.syms["llen"].name())
+    if key not in _LEAFCNT:
+        k = len(_LEAFCNT)
+        F = Function(f"LeafCnt<{k}>", PSeq, I, I)
+        s, i = Const(f"s!lc{k}", PSeq), Const(f"i!lc{k}", I)
+        SPEC_AXIOMS.extend([
+            ForAll([s], F(s, 0) == 0, patterns=[F(s, 0)]),
+            ForAll([s, i], Implies(And(0 <= i, i < Len(s)), F(s, i + 1) == F(s, i) + If(h.clen(At(s, i)) == 0, 1, 0)), patterns=[F(s, i + 1)]),
+        ])
+        _LEAFCNT[key] = F
+    return _LEAFCNT[key]
+
+
 _FILT: dict = {}
 
 
